@@ -13,7 +13,11 @@ func blockStringValue(raw string) string {
 	lines := strings.Split(raw, "\n")
 
 	commonIndent := math.MaxInt32
-	for _, line := range lines {
+	for i, line := range lines {
+		// the first line never takes part in the common indentation
+		if i == 0 {
+			continue
+		}
 		indent := leadingWhitespace(line)
 		if indent < len(line) && indent < commonIndent {
 			commonIndent = indent
